@@ -40,6 +40,11 @@ type edfGen struct {
 	sentUsed  []int          // sentinel indexes used
 	atomsUsed []gen.Atom
 	regionHit bool // the listed region was actually produced (dedicated streams)
+
+	// bias (boundary-id configurations): types, atoms and sentinels that own the ids at the boundaries
+	prefTypes []reflect.Type
+	prefAtoms []gen.Atom
+	prefSent  []error
 }
 
 func newEdfGen(rng *Rng, mode edfMode, budget int) *edfGen {
@@ -133,6 +138,8 @@ func (g *edfGen) genType(depth int, top, key bool) reflect.Type {
 				v := g.genType(depth+1, false, false)
 				t = reflect.MapOf(k, v)
 			}
+		case len(g.prefTypes) > 0 && !key && r.Intn(4) == 0:
+			t = g.prefTypes[r.Intn(len(g.prefTypes))]
 		case r.Intn(10) < 3:
 			t = edfRegs[r.Intn(len(edfRegs))].T
 		default:
@@ -282,6 +289,11 @@ func (g *edfGen) genAtom() gen.Atom {
 		g.poison, g.poisoned = false, "atom>255"
 		return gen.Atom(g.bytesOf(256 + r.Intn(3)*100))
 	}
+	if len(g.prefAtoms) > 0 && r.Intn(3) == 0 {
+		a := g.prefAtoms[r.Intn(len(g.prefAtoms))]
+		g.atomsUsed = append(g.atomsUsed, a)
+		return a
+	}
 	if r.Intn(10) < 6 {
 		a := edfAtomPool[r.Intn(len(edfAtomPool))]
 		g.atomsUsed = append(g.atomsUsed, a)
@@ -336,6 +348,9 @@ func (g *edfGen) genError(allowNil, allowForeign bool) error {
 	if g.poison && r.Intn(3) == 0 && !g.small {
 		g.poison, g.poisoned = false, "error>32767"
 		return errors.New(string(g.bytesOf(32768 + r.Intn(2)*500)))
+	}
+	if len(g.prefSent) > 0 && r.Intn(3) == 0 {
+		return g.prefSent[r.Intn(len(g.prefSent))]
 	}
 	switch c := r.Intn(20); {
 	case c < 3 && allowNil:
